@@ -3,6 +3,6 @@ CONSTANTS
   Stride = 12
 INIT Init
 NEXT Next
-INVARIANTS C07_DeclaredMethodRuns C07_UncoveredOutcomeActsAsNoReply C07_UnknownIdIsError C08_RequestedRepliesAreHandled C09_NoHandlerOnBadData C06_LegacyReplyAlwaysRuns
+INVARIANTS C07_DeclaredMethodRuns C07_UncoveredOutcomeActsAsNoReply C07_UnknownIdIsError C08_RequestedRepliesAreHandled C09_NoHandlerOnBadData C06_LegacyReplyAlwaysRuns C07_UncoveredIgnoresPayload C08_MethodNeedsDecodablePayload
 POSTCONDITION EmitTables
 CHECK_DEADLOCK FALSE
